@@ -150,7 +150,7 @@ class C16(Prop):
     def gen(self, seed, tier):
         r = random.Random(seed); ops = []
         ints = sorted(set(s * x for x in (0, 1, 2, 23, 24, 25, 255, 256, 257, 65535, 65536, 65537, 2**32 - 1, 2**32, 2**32 + 1, 2**63 - 1) for s in (1, -1)) | {-2**63, -2**63 + 1} | {-x - 1 for x in (23, 24, 255, 256, 65535, 65536, 2**32 - 1, 2**32)})
-        texts = [b'', b'a', b'b', b'aa', b'ab', b'ba', b'z', b'a' * 23, b'a' * 24, b'b' * 23, b'a' * 255, b'a' * 256, b'a' * 254 + b'b', 'é'.encode(), 'ée'.encode(), b'zz', '€'.encode(), b'a' * 22 + b'\xc3\xa9']
+        texts = [b'', b'a', b'b', b'aa', b'ab', b'ba', b'z', b'a' * 23, b'a' * 24, b'b' * 23, b'a' * 255, b'a' * 256, b'a' * 254 + b'b', 'é'.encode(), 'ée'.encode(), b'zz', '€'.encode(), b'a' * 22 + b'\xc3\xa9', '\uff211'.encode(), '\U0001f600'.encode(), '\ue000x'.encode(), '\U00010000'.encode(), b'A', b'Z', b'B', b'1', b'10', b'2', b'-1']
         labs = ['i%d' % i for i in ints] + ['t' + t.hex() for t in texts]
         pairs = list(itertools.product(labs, labs))
         if tier != 'thorough': pairs = r.sample(pairs, min(len(pairs), 3500)) + [(a, a) for a in labs]
@@ -161,7 +161,7 @@ class C16(Prop):
             if r.random() < 0.3: b = 'i%d' % (int(a[1:]) + r.choice([-1, 1, 256, -256])) if -2**63 < int(a[1:]) < 2**63 - 256 else b
             ops.append(mk('cmp Label %s %s' % (a, b), k='label', a=a, b=b)); ops.append(mk('cmpc %s %s' % (a, b), k='canon', a=a, b=b))
         for reg, kind in (('Algorithm', 'RegLabelPriv'), ('CwtClaimName', 'RegLabelPriv'), ('HeaderParameter', 'RegLabel'), ('KeyOperation', 'RegLabel'), ('CoapContentFormat', 'RegLabel'), ('KeyType', 'RegLabel'), ('HeaderParameter', 'RegLabelPriv'), ('EllipticCurve', 'RegLabelPriv')):
-            vals = ['A%d' % v for v in reg_values(reg)] + ['X' + t.hex() for t in texts[:8]]
+            vals = ['A%d' % v for v in reg_values(reg)[:40]] + ['X' + t.hex() for t in texts[:8] + [t for t in texts[8:] if len(t) <= 6]]      # text labels of every alphabet, not only ASCII
             if kind == 'RegLabelPriv': vals += ['P%d' % p for p in (-65537, -65538, -70000, -2**32, -2**63)]
             ps = list(itertools.product(vals, vals))
             if len(ps) > budget(tier, 600, 20000): ps = r.sample(ps, budget(tier, 600, 20000))
@@ -206,14 +206,26 @@ class C17(Prop):
                 ops.append(mk('dec RegLabel:%s b%s' % (name, e), k='classify', reg=name, i=i))
                 if name in privnames: ops.append(mk('dec RegLabelPriv:%s b%s' % (name, e), k='classify-priv', reg=name, i=i))
             ops.append(mk('dec RegLabel:%s b6161' % name, k='text'))
+            # "text labels are always kept": also a text that reads as one of the registered numbers (informed-adversary round:
+            # `t.parse().ok().and_then(from_i64)` turned "2" into the registered name)
+            for nm, v in rows[:12] + rows[-3:]:
+                for t in (str(v), '+%d' % v if v >= 0 else str(v), '0%d' % v if v >= 0 else '-0%d' % -v, nm):
+                    e = refcbor.encode(('text', t.encode())).hex()
+                    ops.append(mk('dec RegLabel:%s b%s' % (name, e), k='numeric-text', reg=name, text=t))
+                    if name in privnames: ops.append(mk('dec RegLabelPriv:%s b%s' % (name, e), k='numeric-text', reg=name, text=t))
         for i in list(range(-65540, -65530)) + [-7, 8, 0]:
             e = refcbor.encode(('int', i)).hex()
             ops += [mk('dec Header ba101' + e, k='field'), mk('dec CoseKey ba2010103' + e, k='field'), mk('dec ClaimsSet ba1' + e + 'f6', k='field'), mk('dec Header ba10281' + e, k='field'), mk('dec CoseKey ba101' + e, k='field')]
+        for t in ('1', '2', '4', '60', '-7', '3', '+2'):
+            e = refcbor.encode(('text', t.encode())).hex()
+            ops += [mk('chain CoseKey ba101' + e, k='field-text'), mk('chain CoseKey ba201040481' + e, k='field-text'), mk('chain CoseKey ba20104048201' + e, k='field-text'), mk('chain Header ba10281' + e, k='field-text'),
+                    mk('chain Header ba103' + e, k='field-text'), mk('chain Header ba101' + e, k='field-text'), mk('chain ClaimsSet ba1' + e + 'f6', k='field-text')]
         return ops
     def impl_pred(self, o, impl):
         m = o['meta']
         if 'want' in m and impl != m['want']: return 'conversion differs from the registry table in the source (extractor / macro drift)'
         if m.get('k') == 'priv' and impl != ('T' if m['i'] < -65536 else 'F'): return 'private-use predicate is not "below -65536"'
+        if m.get('k') == 'numeric-text' and impl != 'ok X' + m['text'].encode().hex(): return 'a text label was not kept as text'
         return None
 
 # ===================================================================== C18
@@ -310,6 +322,24 @@ class C19(Prop):
             for _ in range(budget(tier, 40, 600)):                         # random histories
                 n = r.randint(3, 30 if r.random() < 0.2 else 8)
                 ops.append(mk('build %s %s' % (B, ' '.join(r.choice(fs)() for _ in range(n))), k=B))
+        # the same adder N times in a row, N around every count at which an array head, a sort strategy or a plausible cap changes
+        # (informed-adversary round: a cap of 16 on add_counter_signature needs 17 calls; no random history makes them)
+        ADDERS = {'HeaderBuilder': ['add_counter_signature', 'add_critical', 'value', 'text_value'], 'CoseSignBuilder': ['add_signature', 'add_created_signature'],
+                  'CoseMacBuilder': ['add_recipient'], 'CoseEncryptBuilder': ['add_recipient'], 'CoseRecipientBuilder': ['add_recipient'],
+                  'CoseKeyBuilder': ['add_key_op', 'param'], 'ClaimsSetBuilder': ['claim', 'text_claim', 'private_claim'], 'CoseKdfContextBuilder': ['add_supp_priv_info']}
+        for B, names in ADDERS.items():
+            for nm in names:
+                fs = [f for f in table[B] if f().startswith('(' + nm + ' ')]
+                if not fs: continue
+                for n in (15, 16, 17, 18, 23, 24, 25, 33, 34, 35, 100) + ((255, 256, 257) if tier == 'thorough' or nm in ('add_counter_signature', 'add_signature', 'add_recipient') else ()):
+                    def one(i):
+                        x = fs[0]()
+                        # distinct labels for the guarded adders so that the sequence does not stop at a duplicate / reserved label
+                        if nm in ('value', 'param'): x = re.sub(r'^\((\w+) i-?\d+ ', lambda m_: '(%s i%d ' % (m_.group(1), 1000 + i), x)
+                        if nm == 'private_claim': x = re.sub(r'^\((\w+) i-?\d+ ', lambda m_: '(%s i%d ' % (m_.group(1), -70000 - i), x)
+                        if nm in ('text_value', 'text_claim'): x = re.sub(r'^\((\w+) t[0-9a-f]* ', lambda m_: '(%s t%s ' % (m_.group(1), ('k%d' % i).encode().hex()), x)
+                        return x
+                    ops.append(mk('build %s %s' % (B, ' '.join(one(i) for i in range(n))), k=B + ':repeat', n=n))
         for c in ctors:
             for _ in range(budget(tier, 6, 60)):
                 ops.append(mk('build CoseKeyBuilder %s %s' % (c(), ' '.join(r.choice(table['CoseKeyBuilder'])() for _ in range(r.randint(0, 3)))), k='key-ctor'))
